@@ -60,6 +60,20 @@ Example deadlock_without_sink :
   ok = true /\ statuses s = [2; 2].
 Proof. vm_compute. auto. Qed.
 
+(* ---- two exclusive decodes of ONE reference under TWO types, in flight at the same time:
+   each runs its own decode function, nobody waits, each gets its own value ---- *)
+Example two_types_in_flight :
+  let '(tr, s, ok) := run_trace nonext nobody never never 256
+                        (init [[OExcl true 1 0]; [OExcl true 1 1]]) [0;1; 0;1; 0;1; 0;1; 0;1; 0;1; 0;1] in
+  ok = true /\ forallb (forallb (fun st => negb (Nat.eqb st 2))) tr = true /\
+  map (fun ev => match ev with
+                 | ERun tid c e => Some (tid, cty c, 0)
+                 | EExc tid r t (Ok v) => Some (tid, t, v)
+                 | _ => None end) (rev (log (sh s)))
+  = [Some (0, 0, 0); Some (1, 1, 0); None; Some (0, 0, 1); None; Some (1, 1, 2)] /\
+  cache (sh s) = [((1, 1), 2); ((1, 0), 1)].
+Proof. vm_compute. auto. Qed.
+
 (* ---- a cache hit masks the depth limit - sequentially, in one goroutine:
    with limit 1 the chain 1 -> 2 is too deep for Decode(1) alone, but after
    Decode(2) the walk stops at the cached reference 2 ---- *)
